@@ -5,6 +5,7 @@ import (
 	"go/ast"
 	"go/token"
 	"go/types"
+	"sort"
 	"strings"
 
 	"verif/sa/core"
@@ -344,7 +345,56 @@ func rulePU6() Rule {
 									rr.Bad(f, key+"@"+prod, call.Pos(), "a reduce action that is not an assignment, ++ or -- stores a variable: `"+prod+"`")
 								}
 							default:
-								rr.Bad(f, key, call.Pos(), "Set is called from "+f.Name+": expansion/evaluation may change the store only through ${name:=word}, ${name=word} and the arithmetic assignment operators")
+								// a helper all of whose callers are assignment, ++ or -- reductions
+								// (the four increment actions sharing one function)
+								var viaHelper func(h *core.Func, depth int) (bool, string)
+								viaHelper = func(h *core.Func, depth int) (bool, string) {
+									if depth > 2 || h.Pkg.Name != "interp" || h.Decl == nil {
+										return false, ""
+									}
+									calls, complete := c.callSitesOf(h)
+									if !complete || len(calls) == 0 {
+										return false, ""
+									}
+									var prods []string
+									for _, cs := range calls {
+										if cs.in.Generated {
+											cc := enclosingCase(c.P, cs.call)
+											k := -1
+											if cc != nil && len(cc.List) == 1 {
+												if v, ok := evalInt(cc.List[0]); ok {
+													k = int(v)
+												}
+											}
+											okProd := false
+											if gi.Err == nil && k >= 1 && k <= len(gi.G.Prods) {
+												pr := gi.G.Prods[k-1]
+												for _, sy := range pr.RHS {
+													if sy == "INC" || sy == "DEC" || sy == "assign_op" {
+														okProd = true
+													}
+												}
+												prods = append(prods, pr.String())
+											}
+											if !okProd {
+												return false, ""
+											}
+											continue
+										}
+										ok, why := viaHelper(cs.in.Root(), depth+1)
+										if !ok {
+											return false, ""
+										}
+										prods = append(prods, why)
+									}
+									sort.Strings(prods)
+									return true, strings.Join(prods, "; ")
+								}
+								if ok, why := viaHelper(f.Root(), 0); ok {
+									rr.OK(f, key, call.Pos(), "assignment-production", "helper called only from: "+why)
+								} else {
+									rr.Bad(f, key, call.Pos(), "Set is called from "+f.Name+": expansion/evaluation may change the store only through ${name:=word}, ${name=word} and the arithmetic assignment operators")
+								}
 							}
 						}
 						return true
@@ -566,6 +616,16 @@ func rulePU10() Rule {
 				}
 				if call, ok := n.(*ast.CallExpr); ok && decidesSpecials(call) {
 					return true
+				}
+				// a lookup of the name in a constant table of one-character names
+				if ix, ok := n.(*ast.IndexExpr); ok {
+					if id, ok := ast.Unparen(ix.Index).(*ast.Ident); ok && info.Uses[id] == nameParam {
+						for _, k := range c.globalMapKeys(info, ix.X) {
+							if len(k) == 1 {
+								return true
+							}
+						}
+					}
 				}
 				return spSwitch(info, n, nameParam)
 			}, nil)
